@@ -230,3 +230,126 @@ def switch_on_call(body, call_block):
                     tr[v] = s
             return a, tr.get(True), tr.get(False)
     return None, None, None
+
+
+# ------------------------------------------------------------------------------------------------
+# K5 forward taint (flow-insensitive, intra-procedural; callers chain through summaries they provide)
+# ------------------------------------------------------------------------------------------------
+def forward_taint(body, seed_locals=(), call_source=None, field_source=None, declassify=None, int_barrier=True):
+    """Set of tainted locals.
+    call_source(term, tainted_arg_idxs) -> bool : the call's destination becomes tainted (besides the default
+        'any tainted argument taints the result and every &mut argument's pointee').
+    field_source(place, body) -> bool : reading this place is a source.
+    declassify(term) -> bool : the call's result is NOT tainted even with tainted arguments."""
+    tainted = set(seed_locals)
+    pts = body.pointees()
+
+    def place_tainted(p):
+        if p is None:
+            return False
+        if p["local"] in tainted:
+            return True
+        if field_source and field_source(p, body):
+            return True
+        return False
+
+    def op_tainted(o):
+        return place_tainted(op_place(o))
+
+    def mark(l):
+        if int_barrier and body.local_ty(l) in ("usize", "isize"):
+            return False
+        if l not in tainted:
+            tainted.add(l)
+            return True
+        return False
+
+    changed = True
+    it = 0
+    while changed and it < 200:
+        changed = False
+        it += 1
+        for bi in sorted(body.live_blocks()):
+            blk = body.blocks[bi]
+            for s in blk["stmts"]:
+                if s["k"] != "assign":
+                    continue
+                rv = s["rv"]
+                ops, places = rv_operands(rv)
+                if any(op_tainted(o) for o in ops) or any(place_tainted(p) for p in places):
+                    d = s["place"]
+                    tg = [d["local"]]
+                    if place_has_deref(d):
+                        tg = list(pts[d["local"]]) or [d["local"]]
+                    for l in tg:
+                        if mark(l):
+                            changed = True
+            t = blk["term"]
+            if t["k"] == "call":
+                targs = [i for i, a in enumerate(t["args"]) if op_tainted(a)]
+                src = bool(call_source and call_source(t, targs))
+                if (targs or src) and not (declassify and declassify(t)):
+                    d = t["dest"]
+                    tg = [d["local"]]
+                    if place_has_deref(d):
+                        tg = list(pts[d["local"]]) or [d["local"]]
+                    for l in tg:
+                        if mark(l):
+                            changed = True
+                    if targs:
+                        for ai, a in enumerate(t["args"]):
+                            l = op_local(a)
+                            if l is None or ai in targs:
+                                continue
+                            ty = t["arg_tys"][ai] if ai < len(t.get("arg_tys", [])) else ""
+                            if ty.startswith("&mut"):
+                                for pl in pts[l]:
+                                    if mark(pl):
+                                        changed = True
+            elif t["k"] == "yield":
+                pass
+    return tainted
+
+
+def tainted_uses(body, tainted, field_source=None):
+    """Enumerate uses of tainted values: yields (kind, block, detail) with kind in
+    'switch' | 'assert' | 'call' | 'aggregate' | 'index'."""
+    def pt(p):
+        return p is not None and (p["local"] in tainted or bool(field_source and field_source(p, body)))
+
+    for bi in sorted(body.live_blocks()):
+        blk = body.blocks[bi]
+        for i, s in enumerate(blk["stmts"]):
+            if s["k"] != "assign":
+                continue
+            rv = s["rv"]
+            if rv["k"] == "aggregate":
+                idx = [k for k, o in enumerate(rv["ops"]) if pt(op_place(o))]
+                if idx:
+                    yield ("aggregate", bi, (s, idx))
+            ops, places = rv_operands(rv)
+            for p in [op_place(o) for o in ops] + places:
+                if p is None:
+                    continue
+                for il in place_index_locals(p):
+                    if il in tainted:
+                        yield ("index", bi, s)
+        t = blk["term"]
+        if t["k"] == "switch" and pt(op_place(t["discr"])):
+            yield ("switch", bi, t)
+        elif t["k"] == "assert" and pt(op_place(t["cond"])):
+            yield ("assert", bi, t)
+        elif t["k"] == "call":
+            idx = [k for k, a in enumerate(t["args"]) if pt(op_place(a))]
+            if idx:
+                yield ("call", bi, (t, idx))
+
+
+def in_macro(body, block, names):
+    ms = body.blocks[block]["tspan"].get("macros", [])
+    return any(any(n in m for n in names) for m in ms)
+
+
+def stmt_in_macro(stmt, names):
+    ms = stmt["span"].get("macros", [])
+    return any(any(n in m for n in names) for m in ms)
